@@ -7,7 +7,7 @@
 From Coq Require Import List Arith Bool NArith.
 From FFSM2 Require Import Model.TaskList Model.BitArray Model.BitStream Model.Plan Model.Ancestors Model.Machine
   Proofs.BitArrayProofs Proofs.TaskListProofs Proofs.TaskListRun Proofs.PlanProofs Proofs.MachineFrame Proofs.MachinePlan Proofs.MachineLife Proofs.GuardProofs Proofs.CycleProofs Proofs.PlanStep
-  Proofs.SerialProofs Proofs.LogProofs Proofs.MachineTop Model.Multi Generated.InitFacts Proofs.ConstructProofs Proofs.LifeMonitor Proofs.ActivationRounds Proofs.IndexSafety Proofs.FeatureProofs Model.Script Proofs.Contract Proofs.Histories Proofs.StatusBits Proofs.Worlds Model.Cxx Generated.LeafCode Proofs.LeafTactics Proofs.LeafConsts Proofs.LeafCodeTaskList.
+  Proofs.SerialProofs Proofs.LogProofs Proofs.MachineTop Model.Multi Generated.InitFacts Proofs.ConstructProofs Proofs.LifeMonitor Proofs.ActivationRounds Proofs.IndexSafety Proofs.FeatureProofs Model.Script Proofs.Contract Proofs.Histories Proofs.StatusBits Proofs.Worlds Model.Cxx Generated.LeafCode Proofs.LeafTactics Proofs.LeafConsts Proofs.LeafCodeTaskList Proofs.LeafCodeStream Proofs.LeafCodeWide.
 Import ListNotations.
 
 Theorem C18_tasklist_emplace :
@@ -202,4 +202,250 @@ Theorem C18_invariant_with_report_bits_is_closed :
          (1 <= N.of_nat (c_n cfg))%N -> 1 <= c_cap cfg <= 255 -> plan_inv_ok P cfg (PIw P cfg).
 Proof. exact (PIw_ok). Qed.
 Print Assumptions C18_invariant_with_report_bits_is_closed.
+
+(* index safety of the code itself (DESIGN.md 4.7): the interpreter of Model/Cxx.v returns a fault for an element
+   access outside its array, a shift by a negative amount or by at least the width, a signed result outside its type
+   and a division by zero; this theorem says the body of BitWriteStreamT<>::write<W>(), W <= 8, as translated from
+   clang's typed AST of /repo's current source on every run, returns a result - no fault - for every argument the
+   library's own assertions admit (and computes the model's function) *)
+Theorem C18_source_write_never_faults :
+  forall (W item c : N) (buf : list N),
+         (1 <= W <= 8)%N ->
+         (item < 256)%N ->
+         (c < 256)%N ->
+         Forall (fun x : N => (x < 256)%N) buf ->
+         (c + W <= 8 * N.of_nat (length buf))%N ->
+         length buf <= 32 ->
+         result
+           (run leaf_ftable
+              [(String.String (Ascii.Ascii false true true true false false true false)
+                  (String.String (Ascii.Ascii false true false false false false true false)
+                     (String.String (Ascii.Ascii true false false true false true true false)
+                        (String.String (Ascii.Ascii false false true false true true true false)
+                           (String.String (Ascii.Ascii true true true false true false true false)
+                              (String.String (Ascii.Ascii true false false true false true true false)
+                                 (String.String (Ascii.Ascii false false true false false true true false)
+                                    (String.String (Ascii.Ascii false false true false true true true false)
+                                       (String.String
+                                          (Ascii.Ascii false false false true false true true false)
+                                          String.EmptyString)))))))), BinInt.Z.of_N W)]
+              BitWriteStreamT_100__write_5 [BinInt.Z.of_N item]
+              [(String.String (Ascii.Ascii true true true true true false true false)
+                  (String.String (Ascii.Ascii true true false false false true true false)
+                     (String.String (Ascii.Ascii true false true false true true true false)
+                        (String.String (Ascii.Ascii false true false false true true true false)
+                           (String.String (Ascii.Ascii true true false false true true true false)
+                              (String.String (Ascii.Ascii true true true true false true true false)
+                                 (String.String (Ascii.Ascii false true false false true true true false)
+                                    String.EmptyString)))))), BinInt.Z.of_N c)]
+              [(String.String (Ascii.Ascii true true true true true false true false)
+                  (String.String (Ascii.Ascii false true false false false true true false)
+                     (String.String (Ascii.Ascii true false true false true true true false)
+                        (String.String (Ascii.Ascii false true true false false true true false)
+                           (String.String (Ascii.Ascii false true true false false true true false)
+                              (String.String (Ascii.Ascii true false true false false true true false)
+                                 (String.String (Ascii.Ascii false true false false true true true false)
+                                    (String.String (Ascii.Ascii false true true true false true false false)
+                                       (String.String (Ascii.Ascii true true true true true false true false)
+                                          (String.String
+                                             (Ascii.Ascii false false true false false true true false)
+                                             (String.String
+                                                (Ascii.Ascii true false false false false true true false)
+                                                (String.String
+                                                   (Ascii.Ascii false false true false true true true false)
+                                                   (String.String
+                                                      (Ascii.Ascii true false false false false true true false)
+                                                      String.EmptyString)))))))))))), 
+                zs buf)]) =
+         (let
+          '(buf', c') := write buf c W item in
+           Some
+             (None,
+              [(String.String (Ascii.Ascii true true true true true false true false)
+                  (String.String (Ascii.Ascii true true false false false true true false)
+                     (String.String (Ascii.Ascii true false true false true true true false)
+                        (String.String (Ascii.Ascii false true false false true true true false)
+                           (String.String (Ascii.Ascii true true false false true true true false)
+                              (String.String (Ascii.Ascii true true true true false true true false)
+                                 (String.String (Ascii.Ascii false true false false true true true false)
+                                    String.EmptyString)))))), BinInt.Z.of_N c')],
+              [(String.String (Ascii.Ascii true true true true true false true false)
+                  (String.String (Ascii.Ascii false true false false false true true false)
+                     (String.String (Ascii.Ascii true false true false true true true false)
+                        (String.String (Ascii.Ascii false true true false false true true false)
+                           (String.String (Ascii.Ascii false true true false false true true false)
+                              (String.String (Ascii.Ascii true false true false false true true false)
+                                 (String.String (Ascii.Ascii false true false false true true true false)
+                                    (String.String (Ascii.Ascii false true true true false true false false)
+                                       (String.String (Ascii.Ascii true true true true true false true false)
+                                          (String.String
+                                             (Ascii.Ascii false false true false false true true false)
+                                             (String.String
+                                                (Ascii.Ascii true false false false false true true false)
+                                                (String.String
+                                                   (Ascii.Ascii false false true false true true true false)
+                                                   (String.String
+                                                      (Ascii.Ascii true false false false false true true false)
+                                                      String.EmptyString)))))))))))), 
+                zs buf')])).
+Proof. exact (src_write8). Qed.
+Print Assumptions C18_source_write_never_faults.
+
+(* index safety of the code itself (DESIGN.md 4.7): the interpreter of Model/Cxx.v returns a fault for an element
+   access outside its array, a shift by a negative amount or by at least the width, a signed result outside its type
+   and a division by zero; this theorem says the body of BitWriteStreamT<>::write<W>(), W <= 32 (the item is shifted at
+   unsigned int and may wrap, which is defined), as translated from clang's typed AST of /repo's current source on
+   every run, returns a result - no fault - for every argument the library's own assertions admit (and computes the
+   model's function) *)
+Theorem C18_source_write32_never_faults :
+  forall (W item c : N) (buf : list N),
+         (1 <= W <= 32)%N ->
+         (item < 4294967296)%N ->
+         (c < 256)%N ->
+         Forall (fun x : N => (x < 256)%N) buf ->
+         (c + W <= 8 * N.of_nat (length buf))%N ->
+         length buf <= 32 ->
+         result
+           (run leaf_ftable
+              [(String.String (Ascii.Ascii false true true true false false true false)
+                  (String.String (Ascii.Ascii false true false false false false true false)
+                     (String.String (Ascii.Ascii true false false true false true true false)
+                        (String.String (Ascii.Ascii false false true false true true true false)
+                           (String.String (Ascii.Ascii true true true false true false true false)
+                              (String.String (Ascii.Ascii true false false true false true true false)
+                                 (String.String (Ascii.Ascii false false true false false true true false)
+                                    (String.String (Ascii.Ascii false false true false true true true false)
+                                       (String.String
+                                          (Ascii.Ascii false false false true false true true false)
+                                          String.EmptyString)))))))), BinInt.Z.of_N W)]
+              BitWriteStreamT_100__write_20 [BinInt.Z.of_N item]
+              [(String.String (Ascii.Ascii true true true true true false true false)
+                  (String.String (Ascii.Ascii true true false false false true true false)
+                     (String.String (Ascii.Ascii true false true false true true true false)
+                        (String.String (Ascii.Ascii false true false false true true true false)
+                           (String.String (Ascii.Ascii true true false false true true true false)
+                              (String.String (Ascii.Ascii true true true true false true true false)
+                                 (String.String (Ascii.Ascii false true false false true true true false)
+                                    String.EmptyString)))))), BinInt.Z.of_N c)]
+              [(String.String (Ascii.Ascii true true true true true false true false)
+                  (String.String (Ascii.Ascii false true false false false true true false)
+                     (String.String (Ascii.Ascii true false true false true true true false)
+                        (String.String (Ascii.Ascii false true true false false true true false)
+                           (String.String (Ascii.Ascii false true true false false true true false)
+                              (String.String (Ascii.Ascii true false true false false true true false)
+                                 (String.String (Ascii.Ascii false true false false true true true false)
+                                    (String.String (Ascii.Ascii false true true true false true false false)
+                                       (String.String (Ascii.Ascii true true true true true false true false)
+                                          (String.String
+                                             (Ascii.Ascii false false true false false true true false)
+                                             (String.String
+                                                (Ascii.Ascii true false false false false true true false)
+                                                (String.String
+                                                   (Ascii.Ascii false false true false true true true false)
+                                                   (String.String
+                                                      (Ascii.Ascii true false false false false true true false)
+                                                      String.EmptyString)))))))))))), 
+                zs buf)]) =
+         (let
+          '(buf', c') := write buf c W item in
+           Some
+             (None,
+              [(String.String (Ascii.Ascii true true true true true false true false)
+                  (String.String (Ascii.Ascii true true false false false true true false)
+                     (String.String (Ascii.Ascii true false true false true true true false)
+                        (String.String (Ascii.Ascii false true false false true true true false)
+                           (String.String (Ascii.Ascii true true false false true true true false)
+                              (String.String (Ascii.Ascii true true true true false true true false)
+                                 (String.String (Ascii.Ascii false true false false true true true false)
+                                    String.EmptyString)))))), BinInt.Z.of_N c')],
+              [(String.String (Ascii.Ascii true true true true true false true false)
+                  (String.String (Ascii.Ascii false true false false false true true false)
+                     (String.String (Ascii.Ascii true false true false true true true false)
+                        (String.String (Ascii.Ascii false true true false false true true false)
+                           (String.String (Ascii.Ascii false true true false false true true false)
+                              (String.String (Ascii.Ascii true false true false false true true false)
+                                 (String.String (Ascii.Ascii false true false false true true true false)
+                                    (String.String (Ascii.Ascii false true true true false true false false)
+                                       (String.String (Ascii.Ascii true true true true true false true false)
+                                          (String.String
+                                             (Ascii.Ascii false false true false false true true false)
+                                             (String.String
+                                                (Ascii.Ascii true false false false false true true false)
+                                                (String.String
+                                                   (Ascii.Ascii false false true false true true true false)
+                                                   (String.String
+                                                      (Ascii.Ascii true false false false false true true false)
+                                                      String.EmptyString)))))))))))), 
+                zs buf')])).
+Proof. exact (src_write32). Qed.
+Print Assumptions C18_source_write32_never_faults.
+
+(* index safety of the code itself (DESIGN.md 4.7): the interpreter of Model/Cxx.v returns a fault for an element
+   access outside its array, a shift by a negative amount or by at least the width, a signed result outside its type
+   and a division by zero; this theorem says the body of BitReadStreamT<>::read<W>(), W <= 8, as translated from
+   clang's typed AST of /repo's current source on every run, returns a result - no fault - for every argument the
+   library's own assertions admit (and computes the model's function) *)
+Theorem C18_source_read_never_faults :
+  forall (W c : N) (buf : list N),
+         (1 <= W <= 8)%N ->
+         (c < 256)%N ->
+         Forall (fun x : N => (x < 256)%N) buf ->
+         (c + W <= 8 * N.of_nat (length buf))%N ->
+         length buf <= 32 ->
+         result (run leaf_ftable (width_const W) BitReadStreamT_100__read_5 [] (cursor_fld c) (stream_obj buf)) =
+         (let '(v, c') := read buf c W in Some (Some (BinInt.Z.of_N v), cursor_fld c', stream_obj buf)).
+Proof. exact (src_read8). Qed.
+Print Assumptions C18_source_read_never_faults.
+
+(* index safety of the code itself (DESIGN.md 4.7): the interpreter of Model/Cxx.v returns a fault for an element
+   access outside its array, a shift by a negative amount or by at least the width, a signed result outside its type
+   and a division by zero; this theorem says the body of BitReadStreamT<>::read<W>(), W <= 32, as translated from
+   clang's typed AST of /repo's current source on every run, returns a result - no fault - for every argument the
+   library's own assertions admit (and computes the model's function) *)
+Theorem C18_source_read32_never_faults :
+  forall (W c : N) (buf : list N),
+         (1 <= W <= 32)%N ->
+         (c < 256)%N ->
+         Forall (fun x : N => (x < 256)%N) buf ->
+         (c + W <= 8 * N.of_nat (length buf))%N ->
+         length buf <= 32 ->
+         result
+           (run leaf_ftable (width_const W) BitReadStreamT_100__read_20 [] (cursor_fld c) (stream_obj buf)) =
+         (let '(v, c') := read buf c W in Some (Some (BinInt.Z.of_N v), cursor_fld c', stream_obj buf)).
+Proof. exact (src_read32). Qed.
+Print Assumptions C18_source_read32_never_faults.
+
+(* index safety of the code itself (DESIGN.md 4.7): the interpreter of Model/Cxx.v returns a fault for an element
+   access outside its array, a shift by a negative amount or by at least the width, a signed result outside its type
+   and a division by zero; this theorem says the body of TaskListT<void, N>::emplace() on every list satisfying the
+   free-list invariant, as translated from clang's typed AST of /repo's current source on every run, returns a result -
+   no fault - for every argument the library's own assertions admit (and computes the model's function) *)
+Theorem C18_source_tasklist_emplace_never_faults :
+  forall (P : Type) (cap : nat) (t : tl P) (vac : list nat) (occ : list (nat * slot P)) (o d : nat),
+         FL P cap t vac occ ->
+         o <= 255 ->
+         d <= 255 ->
+         result
+           (run leaf_ftable (tl_consts cap) TaskListT_void_5__emplace_u8_u8
+              [BinInt.Z.of_nat o; BinInt.Z.of_nat d] (tl_fields t) (tl_arrays t)) =
+         (let
+          '(t', r) := emplace P cap t o d None in Some (Some (BinInt.Z.of_nat r), tl_fields t', tl_arrays t')).
+Proof. exact (src_TaskList_emplace_FL). Qed.
+Print Assumptions C18_source_tasklist_emplace_never_faults.
+
+(* index safety of the code itself (DESIGN.md 4.7): the interpreter of Model/Cxx.v returns a fault for an element
+   access outside its array, a shift by a negative amount or by at least the width, a signed result outside its type
+   and a division by zero; this theorem says the body of TaskListT<void, N>::remove() on every list satisfying the
+   free-list invariant, as translated from clang's typed AST of /repo's current source on every run, returns a result -
+   no fault - for every argument the library's own assertions admit (and computes the model's function) *)
+Theorem C18_source_tasklist_remove_never_faults :
+  forall (P : Type) (cap : nat) (t : tl P) (vac : list nat) (occ : list (nat * slot P)) (i : nat),
+         FL P cap t vac occ ->
+         In i (map fst occ) ->
+         result
+           (run leaf_ftable (tl_consts cap) TaskListT_void_5__remove [BinInt.Z.of_nat i] 
+              (tl_fields t) (tl_arrays t)) =
+         Some (None, tl_fields (remove P cap t i), tl_arrays (remove P cap t i)).
+Proof. exact (src_TaskList_remove_FL). Qed.
+Print Assumptions C18_source_tasklist_remove_never_faults.
 
